@@ -690,7 +690,12 @@ func (e *Engine) enabled() (acts []action, due time.Duration, hasDue bool) {
 			if n := len(a.Deliveries); n > 0 && a.Deliveries[n-1].Type == "SHUTDOWN" {
 				s.shutSeen = true
 				switch s.b.OnShutdown {
-				case "ignore", "poll":
+				case "ignore":
+				case "poll":
+					// keeps using the API, after a pause of ShutDelay
+					if s.b.ShutDelay > 0 {
+						s.readyAt = e.r.Now() + s.b.ShutDelay
+					}
 				default:
 					s.exitDue = true
 					s.exitAt = e.r.Now() + s.b.ShutDelay
